@@ -834,34 +834,54 @@ def tree_hash(repo):
 
 def get_facts(repo=None, verbose=True):
     """returns (Program, info) for the repo's *current* working tree, re-running the driver
-    unless facts for exactly this tree (content hash) are cached."""
+    unless facts for exactly this tree (content hash) are cached.  Safe under concurrent runs: extraction and pruning happen under one
+    lock, a cache entry that disappears between the freshness test and the load (pruned by another process) is extracted again."""
     repo = repo or REPO
     t0 = time.time()
     key = tree_hash(repo)
     fdir = os.path.join(CACHE, "facts", key)
-    ok = all(os.path.exists(os.path.join(fdir, n)) for n in ("sfs_core.lib.json", "sfs.bin.json", "OK"))
+    names = ("sfs_core.lib.json", "sfs.bin.json", "OK")
     ran = False
-    if not ok:
-        os.makedirs(fdir, exist_ok=True)
-        import fcntl
-        lock = open(os.path.join(CACHE, "extract.lock"), "w")
-        fcntl.flock(lock, fcntl.LOCK_EX)
+    last = None
+    for attempt in range(3):
+        ok = all(os.path.exists(os.path.join(fdir, n)) for n in names)
+        if not ok:
+            os.makedirs(fdir, exist_ok=True)
+            import fcntl
+            lock = open(os.path.join(CACHE, "extract.lock"), "w")
+            fcntl.flock(lock, fcntl.LOCK_EX)
+            try:
+                os.makedirs(fdir, exist_ok=True)
+                ok = all(os.path.exists(os.path.join(fdir, n)) for n in names)
+                if not ok:
+                    tgt = os.path.join(CACHE, "target")
+                    r = subprocess.run([os.path.join(VERIF, "engine", "extract.sh"), repo, fdir, tgt],
+                                       stdout=subprocess.PIPE, stderr=subprocess.STDOUT, text=True)
+                    if r.returncode != 0:
+                        raise FactError("fact extraction failed (exit %d):\n%s" % (r.returncode, r.stdout[-3000:]))
+                    with open(os.path.join(fdir, "OK"), "w") as fh:
+                        fh.write(key)
+                    ran = True
+                    _prune_cache(os.path.join(CACHE, "facts"), keep=key)
+            finally:
+                fcntl.flock(lock, fcntl.LOCK_UN)
+                lock.close()
         try:
-            ok = all(os.path.exists(os.path.join(fdir, n)) for n in ("sfs_core.lib.json", "sfs.bin.json", "OK"))
-            if not ok:
-                tgt = os.path.join(CACHE, "target")
-                r = subprocess.run([os.path.join(VERIF, "engine", "extract.sh"), repo, fdir, tgt],
-                                   stdout=subprocess.PIPE, stderr=subprocess.STDOUT, text=True)
-                if r.returncode != 0:
-                    raise FactError("fact extraction failed (exit %d):\n%s" % (r.returncode, r.stdout[-3000:]))
-                with open(os.path.join(fdir, "OK"), "w") as fh:
-                    fh.write(key)
-                ran = True
-                _prune_cache(os.path.join(CACHE, "facts"), keep=key)
-        finally:
-            fcntl.flock(lock, fcntl.LOCK_UN)
-            lock.close()
-    prog = Program(fdir)
+            os.utime(fdir, None)   # recently used: not a candidate for pruning
+        except OSError:
+            pass
+        try:
+            prog = Program(fdir)
+            break
+        except (FileNotFoundError, json.JSONDecodeError) as e:
+            last = e
+            try:
+                os.remove(os.path.join(fdir, "OK"))
+            except OSError:
+                pass
+            continue
+    else:
+        raise FactError("facts for this tree could not be loaded after three attempts: %s" % last)
     info = {"key": key, "factdir": fdir, "driver_ran": ran, "wall_s": round(time.time() - t0, 2)}
     return prog, info
 
@@ -872,7 +892,11 @@ def _prune_cache(root, keep, maxn=6):
         ds = [d for d in ds if os.path.isdir(d) and os.path.basename(d) != keep]
         ds.sort(key=lambda d: os.path.getmtime(d))
         import shutil
+        now = time.time()
         for d in ds[:-maxn] if len(ds) > maxn else []:
+            # entries another process touched in the last ten minutes may be in use
+            if now - os.path.getmtime(d) < 600:
+                continue
             shutil.rmtree(d, ignore_errors=True)
     except OSError:
         pass
